@@ -30,11 +30,15 @@ Fixpoint set_nth {A} (n : nat) (v : A) (l : list A) : option (list A) :=
   | _, [] => None
   end.
 
+(* The bulk operations are generic in the scalar function they apply: C16 says "bulk = element-wise application of the scalar
+   method", whatever that method answers (its own correctness is C01-C08). *)
+Section Generic.
+Variable sc : str -> res (option str).
+
 (* a data frame: rows of optional cells (None = NA); pd_f writes the mapped column into `target` (default: the source) *)
-Definition pd_apply (c : conv) (f : bfun) (strict pass ambiguous : bool) (rows : list (list (option str))) (col target : nat)
-  : res (list (list (option str))) :=
+Definition pd_apply_g (rows : list (list (option str))) (col target : nat) : res (list (list (option str))) :=
   match map_res (fun row => match nth_error row col with
-                            | Some (Some x) => scalar c f strict pass ambiguous x
+                            | Some (Some x) => sc x
                             | _ => Raise EOther end) rows with
   | Raise e => Raise e
   | Val vals => Val (map (fun rv => match set_nth target (snd rv) (fst rv) with Some r => r | None => fst rv ++ [snd rv] end)
@@ -42,53 +46,68 @@ Definition pd_apply (c : conv) (f : bfun) (strict pass ambiguous : bool) (rows :
   end.
 
 (* _file_helper: read every row and convert; only then write.  A short row is an IndexError. *)
-Definition file_rows (c : conv) (f : bfun) (strict pass ambiguous : bool) (rows : list (list str)) (col : nat)
-  : res (list (list str)) :=
+Definition file_rows_g (rows : list (list str)) (col : nat) : res (list (list str)) :=
   map_res (fun row => match nth_error row col with
                       | None => Raise EIndexError
-                      | Some x => match scalar c f strict pass ambiguous x with
+                      | Some x => match sc x with
                                   | Raise e => Raise e
                                   | Val v => match set_nth col (match v with Some y => y | None => [] end) row with
                                              | Some r => Val r | None => Raise EIndexError end
                                   end
                       end) rows.
 (* the file after the call: unchanged when anything raised *)
-Definition file_after (c : conv) f strict pass ambiguous (header : option (list str)) (rows : list (list str)) (col : nat)
+Definition file_after_g (header : option (list str)) (rows : list (list str)) (col : nat)
   : res unit * (option (list str) * list (list str)) :=
-  match file_rows c f strict pass ambiguous rows col with
+  match file_rows_g rows col with
   | Val rows' => (Val tt, (header, rows'))
   | Raise e => (Raise e, (header, rows))
   end.
+End Generic.
+
+(* the library's instances *)
+Definition pd_apply (c : conv) (f : bfun) (strict pass ambiguous : bool) := pd_apply_g (scalar c f strict pass ambiguous).
+Definition file_rows (c : conv) (f : bfun) (strict pass ambiguous : bool) := file_rows_g (scalar c f strict pass ambiguous).
+Definition file_after (c : conv) f strict pass ambiguous := file_after_g (scalar c f strict pass ambiguous).
 
 (* ---- driver entry ----
-   case = [records; delimiter; fn tag; [strict; pass; ambiguous]; rows; col; target or -1; header opt; mode (0 pandas / 1 file)]
+   case = [records; delimiter; fn tag; [strict; pass; ambiguous]; rows; col; target or -1; header opt; mode (0 pandas / 1 file); table]
+          table = what the implementation's own scalar method (the one C16_scalar names for this operation and these flags) answers on
+          every cell of the chosen column: [[x; [0; opt str] | [1] | [2]]; ...]  -- "element-wise" is judged against these answers
    obs  = pandas: [0; rows with optional cells] | [1] | [2]     file: [code; header opt; rows] (the file as found on disk afterwards) *)
 Definition bfun_of (z : Z) : bfun := (if z =? 0 then BCompress else if z =? 1 then BExpand else if z =? 2 then BStdPrefix else if z =? 3 then BStdCurie else BStdUri)%Z.
 Definition vcell (o : option str) : val := vopt VStr o.
 Definition err_code (e : err) : Z := if lib_value_error e then 1 else 2.
+Definition as_outcome (v : val) : option (res (option str)) :=
+  match v with
+  | VList [VInt 0; VNone] => Some (Val None)
+  | VList [VInt 0; VSome (VStr y)] => Some (Val (Some y))
+  | VList [VInt 1] => Some (Raise ECompression)       (* a library ValueError; only the family is observed *)
+  | VList [VInt 2] => Some (Raise EOther)
+  | _ => None
+  end.
+Definition as_table (v : val) : option (list (str * res (option str))) :=
+  as_list_of (fun e => match e with VList [VStr x; o] => option_map (pair x) (as_outcome o) | _ => None end) v.
+Definition tbl_lookup (t : list (str * res (option str))) (x : str) : res (option str) :=
+  match List.find (fun e => str_eqb x (fst e)) t with Some e => snd e | None => Raise EOther end.
+Definition tbl_covers (t : list (str * res (option str))) (rows : list (list str)) (col : nat) : bool :=
+  forallb (fun row => match nth_error row col with Some x => existsb (fun e => str_eqb x (fst e)) t | None => true end) rows.
+Definition bulk_obs (sc : str -> res (option str)) (mode col target : Z) (header : option (list str)) (rows : list (list str)) : val :=
+  if Z.eqb mode 0 then
+    match pd_apply_g sc (map (map Some) rows) (Z.to_nat col) (if (target <? 0)%Z then Z.to_nat col else Z.to_nat target) with
+    | Val t => VList [VInt 0; VList (map (fun r => VList (map vcell r)) t)]
+    | Raise e => VList [VInt (err_code e)]
+    end
+  else
+    let '(r, (h, t)) := file_after_g sc header rows (Z.to_nat col) in
+    VList [VInt (match r with Val _ => 0 | Raise EIndexError => 3 | Raise e => err_code e end); vopt vstrs h; VList (map vstrs t)].
 Definition run_bulk (case obs : val) : val :=
   match case with
-  | VList [rs; VStr d; VInt tag; VList [VInt st; VInt pa; VInt am]; rows; VInt col; VInt target; header; VInt mode] =>
-      match as_records rs, as_list_of as_strs rows, as_opt as_strs header with
-      | Some rs', Some rows', Some header' =>
-          let f := bfun_of tag in
-          let b z := negb (Z.eqb z 0) in
-          let m := match mk_conv true d rs' with
-                   | Raise _ => VList [VInt (-3)]
-                   | Val c =>
-                       if Z.eqb mode 0 then
-                         match pd_apply c f (b st) (b pa) (b am) (map (map Some) rows') (Z.to_nat col)
-                                        (if (target <? 0)%Z then Z.to_nat col else Z.to_nat target) with
-                         | Val t => VList [VInt 0; VList (map (fun r => VList (map vcell r)) t)]
-                         | Raise e => VList [VInt (err_code e)]
-                         end
-                       else
-                         let '(r, (h, t)) := file_after c f (b st) (b pa) (b am) header' rows' (Z.to_nat col) in
-                         VList [VInt (match r with Val _ => 0 | Raise EIndexError => 3 | Raise e => err_code e end);
-                                vopt vstrs h; VList (map vstrs t)]
-                   end in
+  | VList [rs; VStr d; VInt tag; VList [VInt st; VInt pa; VInt am]; rows; VInt col; VInt target; header; VInt mode; tbl] =>
+      match as_list_of as_strs rows, as_opt as_strs header, as_table tbl with
+      | Some rows', Some header', Some t =>
+          let m := bulk_obs (tbl_lookup t) mode col target header' rows' in
           let same := val_eqb m obs in
-          let valid := strict_okb rs' && negb (is_nil d) in
+          let valid := tbl_covers t rows' (Z.to_nat col) in
           VList [vbool same; vbool valid; VInt 1; vbool same; if same then VList [] else m]
       | _, _, _ => VList [VInt (-1)]
       end
